@@ -907,6 +907,17 @@ def step (s : State) (toks : List String) : State × String :=
       | none => (s, "err")
       | some vs => (s, "ok (" ++ Wire.Text.showVals vs ++ ") " ++ Wire.Text.hexOf (Wire.encMsg 1 ts vs))
     | _, _ => (s, "bad-op")
+  | ["pbi", vs, kd, n, val, t] =>
+    -- a message `struct { N int32; P kyber.Point (or S kyber.Scalar); T string }` whose interface field holds a
+    -- value of `vs` with the marshalled bytes `val` (`nil`: the field is nil): the bytes `protobuf.Encode` writes.
+    -- On the wire the field is a length-delimited byte string — `encIface`: the 8-byte tag of the dynamic
+    -- type if a generator is registered for it, then the bytes — or nothing when it is nil
+    match parseSuite vs, parseKind kd, n.toInt?, (if val = "nil" then some none else (Util.unhex val).map some), Util.unhex t with
+    | some (some vs), some kd, some n, some val, some t =>
+      if n < -2147483648 ∨ n > 2147483647 then (s, "bad-op") else
+      let fld : Wire.Val := .opt (val.map fun b => .bytes (encIface onetGens (vs.make kd).marshalID b))
+      (s, "enc " ++ Wire.Text.hexOf (Wire.encMsg 1 [.i32, .opt .bytes, .bytes] [.int n, fld, .bytes t]))
+    | _, _, _, _, _ => (s, "bad-op")
   | ["fids", desc] =>
     -- `ProtoFields` of a struct type described by its fields (`p<tag>`, `e<tag>(…)`): the field numbers in
     -- field order (or the panic on a repeated number), and whether the decoder's cursor finds every field
